@@ -14,8 +14,9 @@ PROPERTY = "C19"
 TECHNIQUE = ("bounded symbolic execution of RadiRouter.resolve -> Route.url -> RadiRouter.resolve on a router holding one "
              "rule (CrossHair+z3), path-exhaustive over the request path; one query per enumerated rule shape")
 LEVEL_TEXT = ("For each enumerated rule shape the real resolver, URL builder and filter formatters are executed on a symbolic "
-              "request path: either every path up to a stated length, or the rule's literals with a fully symbolic text of "
-              "stated length at every wildcard. Whenever the real resolver matches, the parameters it extracted are fed to "
+              "request path: every path up to a stated length, or the rule's literals with a fully symbolic text of "
+              "stated length at every wildcard, or (long float literals) a concrete float prefix followed by a symbolic tail "
+              "of digits. Whenever the real resolver matches, the parameters it extracted are fed to "
               "Route.url and the built URL is resolved again; z3 decides every branch, so inside the bound every assignment "
               "obtained by matching builds a URL that contains the rule's literals in order and matches with equal values. "
               "Bounded, not a proof: rule shapes are enumerated, path/hole lengths are capped.")
@@ -33,8 +34,8 @@ FUNCTIONS = [
     "ombott.router.filter_factory:_rex",
 ]
 STUBS = ["vf.stubs_c19.float_model: under the tracer float(text) of a symbolic decimal literal -?D+(.D+)? with <= 15 ASCII "
-         "digits is a DecFloat (canonical text; str() = CPython's str(float), == as for floats); real float otherwise and "
-         "in native replay",
+         "digits is a DecFloat (canonical text; str() = CPython's str(float), == as for floats; int()/format(v, spec) "
+         "realise and use the real float); real float otherwise (e.g. values below 1e-4) and in native replay",
          "vf.stubs_c19._match_pattern: CrossHair's regex matcher with len() of the subject evaluated under the tracer (empty "
          "matches on a sliced symbolic string raised CrossHairInternal)",
          "vf.chmodels.int_model for int(text) on ASCII text"]
@@ -45,6 +46,7 @@ ASSUMPTIONS = ["the router holds exactly one rule with one GET handler",
                "digits; int() of those is realised value by value by the engine)",
                "the leading '/' of a rule is not a literal part (Route.url returns the path without it, as the repo's tests expect)"]
 OUTSIDE = ["rule shapes other than the enumerated ones; paths longer than the stated length / wildcard texts longer than the hole",
+           "float literals of more than 4-5 characters other than the enumerated prefixes + digit tails of the skeleton family",
            "float values with more than 15 digits (reading note: from 17 digits on str(float) switches to exponent "
            "notation, e.g. rule /{f:float}, path 12345678901234567 -> url '1.2345678901234568e+16' resolves to 1.23...; not a check result)",
            "rex filters (not in the property's quantifier) beyond the two enumerated shapes and hole length 3. Reading notes, "
@@ -142,12 +144,35 @@ THOROUGH_SHAPES = [
 ]
 
 
+# skeleton + hole for long float literals: the text of the first float wildcard is a concrete prefix followed by a
+# symbolic tail of ASCII digits (prefix + tail stay within the 15 digits the DecFloat model is exact for), every
+# other wildcard has a concrete text.  (tag, prefix, a tail for the native regression input)
+FLOAT_PREFIXES = [
+    ("frac5", "0.12345", "6"),          # the tail makes 6 / 7 fractional digits
+    ("gps", "52.520006", "6"),          # 7 / 8 fractional digits
+    ("neg", "-179.99999", "9"),
+    ("tiny", "0.000000", ""),           # values of size 1e-7: CPython prints these with an exponent
+    ("big", "123456789.1", "2"),        # 11..13 significant digits
+]
+_ALL = tuple(tag for tag, _prefix, _tail in FLOAT_PREFIXES)
+# (shape, index of the wildcard that gets prefix + tail, concrete texts of the other wildcards, prefixes run in the
+# quick tier, prefixes run in the thorough tier, tail length in the thorough tier).  A float wildcard AFTER the symbolic
+# one is matched at a symbolic offset, which costs ~10x (measured), hence only one such configuration, thorough only.
+SKELETONS = [
+    (_s("float", W("f", "float"), ascii=True), 0, (), _ALL, _ALL, 3),
+    (_s("geo", L("geo/"), W("lon", "float"), L("/"), W("lat", "float"), L("/pin"), flavour=0, ascii=True), 1, ("-3.25",),
+     ("gps", "neg"), _ALL, 3),
+    (_s("geo-first", L("geo/"), W("lat", "float"), L("/"), W("lon", "float"), flavour=2, ascii=True), 0, ("-3.25",),
+     (), ("gps",), 2),
+]
+
+
 def shapes(tier):
     return QUICK_SHAPES + (THOROUGH_SHAPES if tier == "thorough" else [])
 
 
-for _shape in QUICK_SHAPES + THOROUGH_SHAPES:      # warm FilterFactory._filter_cache before any analysis
-    Route(_shape.text)
+for _shape in QUICK_SHAPES + THOROUGH_SHAPES + [sk[0] for sk in SKELETONS]:
+    Route(_shape.text)                             # warm FilterFactory._filter_cache before any analysis
 
 
 # ---------------------------------------------------------------- the observation
@@ -251,23 +276,39 @@ def make_free(shape, n):
     return q
 
 
-def make_holes(shape, sizes):
-    spec = shape.spec
+def _path_of(shape, texts):
+    """the rule's literals with texts[i] at the i-th wildcard"""
+    parts = []
+    used = 0
+    for s in shape.spec:
+        if isinstance(s, L):
+            parts.append(s.text)
+        else:
+            parts.append(texts[used])
+            used += 1
+    return "".join(parts)
 
+
+def make_holes(shape, sizes):
     def q(h0: str, h1: str, h2: str):
         holes = [h0, h1, h2][:len(sizes)]
         for h, k in zip(holes, sizes):
             assume(len(h) <= k)
             _restrict(shape, h)
-        parts = []
-        used = 0
-        for s in spec:
-            if isinstance(s, L):
-                parts.append(s.text)
-            else:
-                parts.append(holes[used])
-                used += 1
-        return roundtrip(shape, "".join(parts))
+        return roundtrip(shape, _path_of(shape, holes))
+    return q
+
+
+def make_skeleton(shape, where, prefix, rest, n):
+    def q(t: str):
+        assume(len(t) <= n)
+        for ch in t:
+            assume("0" <= ch <= "9")
+        if len(t) == n:
+            cover("full-tail")
+        texts = list(rest)
+        texts.insert(where, prefix + t)
+        return roundtrip(shape, _path_of(shape, texts))
     return q
 
 
@@ -293,13 +334,25 @@ def queries(tier):
                          "rule %s; every path (%s, slashes anywhere) of len <= %d" % (sh.text, alpha, n),
                          timeout=200 if not T else 900, expect_cover=expect, family="free",
                          config={"rule": sh.text, "literals": sh.literals, "path_len": n}))
+    for sh, where, rest, quick_tags, thorough_tags, deep_tail in SKELETONS:
+        for tag, prefix, _tail in FLOAT_PREFIXES:
+            if tag not in (thorough_tags if T else quick_tags):
+                continue
+            n = deep_tail if T and tag != "tiny" else 2
+            out.append(Q("skeleton/%s/%s" % (sh.tag, tag), make_skeleton(sh, where, prefix, rest, n),
+                         "rule %s; path = the rule's literals %r, float wildcard no. %d = %r + a symbolic tail of <= %d ASCII "
+                         "digits, other wildcards %r" % (sh.text, sh.literals, where, prefix, n, list(rest)),
+                         timeout=150 if not T else 600, expect_cover=["matched", "full-tail"], family="skeleton",
+                         config={"rule": sh.text, "prefix": prefix, "tail_len": n, "other": list(rest)}))
     return out
 
 
 def selftest(tier):
     """stub validation, and one matching path per shape run natively through the query function"""
-    stubs_c19.differential()
-    cases = []
+    stubs_c19.differential(prefix + "%0*d" % (n, v) for _tag, prefix, _tail in FLOAT_PREFIXES
+                           for n in (1, 2, 3) for v in range(10 ** n))
+    cases = [(q.qid, dict(t=tail), "ok") for q in queries(tier) if q.family == "skeleton"
+             for tag, _prefix, tail in FLOAT_PREFIXES if q.qid.endswith("/" + tag)]
     for sh in shapes(tier):
         if sh.wildcards:
             texts = list(sh.example) + ["", "", ""]
